@@ -9,6 +9,14 @@ from harness.common import B
 from harness.drv_nmt import Link
 
 
+def _ts(x):
+    """timestamps are small integers in the generated frames; anything else is logged as -7777"""
+    try:
+        return int(x) if float(x).is_integer() and abs(x) < (1 << 31) else -7777
+    except Exception:  # noqa
+        return -7777
+
+
 def run_case(case: dict) -> dict:
     import logging
     logging.disable(logging.CRITICAL)
@@ -27,15 +35,15 @@ def run_case(case: dict) -> dict:
     cons = rnode.emcy
     calls = []
     for k in range(1, case.get("ncb", 2) + 1):
-        cons.add_callback(lambda e, _k=k: calls.append([_k, e.code, e.register, B(e.data), e.timestamp]))
+        cons.add_callback(lambda e, _k=k: calls.append([_k, e.code, e.register, B(e.data), _ts(e.timestamp)]))
     # a second consumer in the same process (another node of the network) with its own callback
     by = canopen.RemoteNode(nid % 127 + 1, od)
     net1.add_node(by)
-    by.emcy.add_callback(lambda e: calls.append([99, e.code, e.register, B(e.data), e.timestamp]))
+    by.emcy.add_callback(lambda e: calls.append([99, e.code, e.register, B(e.data), _ts(e.timestamp)]))
     ev = []
 
     def proj(lst):
-        return [[e.code, e.register, B(e.data), e.timestamp] for e in lst]
+        return [[e.code, e.register, B(e.data), _ts(e.timestamp)] for e in lst]
 
     def log(e, raised=False):
         e["raised"] = raised
@@ -82,7 +90,7 @@ def run_case(case: dict) -> dict:
             def waiter():
                 try:
                     r = cons.wait(None if op["filter"] < 0 else op["filter"], timeout=op["timeout"])
-                    res["r"] = [] if r is None else [r.code, r.register, B(r.data), r.timestamp]
+                    res["r"] = [] if r is None else [r.code, r.register, B(r.data), _ts(r.timestamp)]
                 except Exception as exc:  # noqa
                     res["r"] = ["exc", repr(exc)]
             import canopen.emcy as emcy_mod
